@@ -173,6 +173,13 @@ def run(ctx):
                 ctx.differential(render(spell, ''.join(decls)), o)
                 ctx.sample({'members': spell, 'representation': o['matrix_vector_types']})
     ctx.extra['violations_by_rule'] = seen
+    # which members become fields at all (builtins skipped, whatever the derive switches and the role of the struct): C05's template has
+    # host-shareable structs with interleaved builtins under all 2^4 switches - run here as a sub-check
+    from harness import c05 as C05
+    saved_bounds = dict(ctx.bounds)
+    ctx.section('fields of structs with builtins under every option set (C05)', lambda: C05.run(ctx))
+    ctx.bounds = dict(saved_bounds, fields_under_all_options='C05 run as a sub-check')
+    ctx.extra['violations_by_rule'] = dict(seen, **(ctx.extra.get('violations_by_rule') or {}))
 
 
 def conditions(sts, order, holes, base_match_for, fmt=None):
